@@ -207,3 +207,47 @@ fn vp_native_chunked_hostile_inputs_terminate() {
     }
     println!("VP-NATIVE chunked_hostile_inputs_terminate cases={}", cases);
 }
+
+/// C19: the data of every chunk that has arrived completely (including its line break) can be read before the reader ever asks
+/// for bytes the server has not sent: the transport here answers WouldBlock ("server paused indefinitely") once the prefix is used up
+#[test]
+fn vp_native_chunked_data_delivered_as_it_arrives() {
+    let sizes = [1usize, 5, 65535, 65536, 65537, 131072];
+    let mut cases = 0u64;
+    for &a in &sizes { for &b in &[3usize, 65536] {
+        let (ca, cb) = ((0..a).map(|i| (i % 253) as u8).collect::<Vec<u8>>(), (0..b).map(|i| (i % 241) as u8).collect::<Vec<u8>>());
+        for nchunks in 1..=2usize {
+            let chunks: Vec<&[u8]> = if nchunks == 1 { vec![&ca[..]] } else { vec![&ca[..], &cb[..]] };
+            let mut wire = encode(&chunks, 0);
+            wire.truncate(wire.len() - 5);            // the terminating chunk has not been sent yet: the server pauses here
+            let want: Vec<u8> = chunks.concat();
+            for seg in [4096usize, 1 << 20] { for rs in [1usize, 1000, 65536, 100000] {
+                if rs == 1 && want.len() > 70000 { continue; }
+                let paused = Script { data: &wire, pos: 0, seg, calls: 0, fail_at: None, kind: io::ErrorKind::WouldBlock, sticky: false };
+                let mut r = ChunkedReader::new(BufReader::new(Pausing(paused)));
+                let mut got = Vec::new();
+                loop {
+                    let mut buf = vec![0u8; rs];
+                    match r.read(&mut buf) {
+                        Ok(0) => panic!("clean end although the terminating chunk never arrived"),
+                        Ok(n) => got.extend_from_slice(&buf[..n]),
+                        Err(e) => { assert_eq!(e.kind(), io::ErrorKind::WouldBlock); break; }
+                    }
+                    if got.len() >= want.len() { break; }
+                }
+                cases += 1;
+                assert!(got == want, "only {} of {} bytes of completely received chunks (sizes {:?}) could be read before the reader waited for more input (read size {}, segments {})",
+                        got.len(), want.len(), chunks.iter().map(|c| c.len()).collect::<Vec<_>>(), rs, seg);
+            } }
+        }
+    } }
+    println!("VP-NATIVE chunked_data_delivered_as_it_arrives cases={}", cases);
+}
+/// a transport that answers WouldBlock instead of end-of-file once its data is used up
+struct Pausing<'a>(Script<'a>);
+impl<'a> Read for Pausing<'a> {
+    fn read(&mut self, buf: &mut [u8]) -> io::Result<usize> {
+        if self.0.pos >= self.0.data.len() && !buf.is_empty() { return Err(io::ErrorKind::WouldBlock.into()); }
+        self.0.read(buf)
+    }
+}
